@@ -6,20 +6,20 @@ import FlVerif.Op.Fld
 namespace Drv
 open SExp Op.Fld
 
-def hexVal (c : Char) : Option Nat :=
+def fldHexVal (c : Char) : Option Nat :=
   if '0' ≤ c ∧ c ≤ '9' then some (c.toNat - '0'.toNat)
   else if 'a' ≤ c ∧ c ≤ 'f' then some (c.toNat - 'a'.toNat + 10) else none
 
 /-- free text travels as `h<hex of utf-8 bytes>` (ASCII is enough for the reader contents we generate) -/
-def unhex (s : String) : Option String :=
+def fldUnhex (s : String) : Option String :=
   match s.toList with
   | 'h' :: cs =>
     let rec go : List Char → List Char → Option (List Char)
       | [], acc => some acc.reverse
       | [_], _ => none
       | a :: b :: rest, acc => do
-          let x ← hexVal a
-          let y ← hexVal b
+          let x ← fldHexVal a
+          let y ← fldHexVal b
           go rest (Char.ofNat (16 * x + y) :: acc)
     (go cs []).map String.ofList
   | _ => none
@@ -51,7 +51,7 @@ def fld : List SExp → Option SExp
       let res := if scope == "all" then resolutionAll act.length v else resolutionEach v
       pure (ofNat (total (maxValues act res)))
   | [atom "fld-reader", skip, list lines] => do
-      let lines ← lines.mapM (fun e => do unhex (← e.asAtom))
+      let lines ← lines.mapM (fun e => do fldUnhex (← e.asAtom))
       pure (list ((readerRows (← skip.asNat) lines).map (fun s => atom (hexOf s))))
   | [atom "fld-header", list ins, list outs, a, b] => do
       let i ← ins.mapM asAtom
